@@ -1154,21 +1154,25 @@ def shard(arg):
     rng = random.Random('%s/%s/C10' % (seed, idx))
     res = Result()
     for j in range(n):
-        kind = ['seq', 'interleave', 'seq', 'interleave', 'threads'][j % 5] if j % 25 == 24 or j % 5 != 4 else 'interleave'
+        kind = ['seq', 'interleave', 'seq', 'interleave', 'threads'][j % 5] if j % 10 == 9 or j % 5 != 4 else 'interleave'
         case, feats = gen_case(rng, kind)
         res.evaluations += 1
         res.count('kind:' + kind)
         for ft in feats:
             res.count('feature:' + ft)
         try:
-            if kind == 'seq':
-                fails, foot = oracle_seq(case, res)
-            elif kind == 'interleave':
-                fails, foot = oracle_interleave(case, res)
-            else:
-                fails, foot = oracle_threads(case, res), []
+            with watchdog(120):
+                if kind == 'seq':
+                    fails, foot = oracle_seq(case, res)
+                elif kind == 'interleave':
+                    fails, foot = oracle_interleave(case, res)
+                else:
+                    fails, foot = oracle_threads(case, res), []
         except RecursionError:
             res.count('harness-recursion')
+            continue
+        except Hang:
+            res.count('case-timeout')      # load, not a verdict: a render that does not come back is caught per next()
             continue
         check_footprints(case, foot, res, kind)
         if fails:
